@@ -17,6 +17,11 @@
     Every operation is a [plan] = the list of ATOMIC store writes it performs, in order,
     plus the result it returns when none of them fails.  A crash at write n / an injected
     failure of write n = apply the first n writes only ([run_upto]).
+    Reads are not steps: every read of Commit/Discard (GetTransaction, ListTransactionRefs,
+    GetTransactionLogs, GetCommit, GetHead - since the repair of ed29119 a GetHead error
+    other than "key not found" aborts as well) returns its error at once, so a failing read
+    between write n-1 and write n leaves exactly the state of the first n writes and an
+    error ([run_read_fault]); the forall-n theorems therefore cover failing reads too.
 
     Content addressing is identity of content: a commit id IS the commit value
     (table, meta = author/time/base message, stack of "commit [tx/..]" message prefixes,
@@ -42,13 +47,16 @@
         perm : enumeration order used by the MODEL (list of branch indices first); Go uses its
                map order; the observation is independent of it
     observation = (opobs ...), one per op:
-      opobs   = (3) for a mode-2 op | (err (moved newobjs status) snap)
+      opobs   = (3) for a mode-2 op | (err (moved newobjs status nrefs) snap)
       err     : 0 ok | 1 error | 3 masked
       moved   : number of branches whose head differs from the head before the first op
-      newobjs : number of commit objects stored since then
+      newobjs : number of commit objects stored since then; 9 from the second faulted Commit of
+                the script on while not all branches have landed (after two partial runs WHICH
+                objects exist depends on the two enumeration orders)
       status  : 0 no such transaction | 1 in progress | 2 committed
-      snap    : () while 0 < moved < number of staged branches (WHICH branches moved depends
-                on the enumeration order), else
+      nrefs   : number of staged refs txs/<id>/.. of the transaction still present
+      snap    : () while 0 < moved < number of staged branches or 0 < nrefs < that number (WHICH
+                branches moved / WHICH refs are deleted depends on the enumeration order), else
                 ((head ...) (log ...) (stagedref ...) (otherref ...)) per branch, with
                 head = () | (chain), chain = ((table nthis nother) ... root) or ... 9) if an object
                 is missing; log = ((old new txflag) ... newest first), txflag 0 none | 1 this tx | 2 other;
@@ -155,6 +163,9 @@ Definition plan := (list write * res)%type.
 Definition run_upto (n : nat) (p : plan) (s : state) : state * res :=
   (apply_all (firstn n (fst p)) s, if (n <? length (fst p))%nat then RErr else snd p).
 Definition run_full (p : plan) (s : state) : state * res := (apply_all (fst p) s, snd p).
+(** a read fails after n writes: same state, always an error. *)
+Definition run_read_fault (n : nat) (p : plan) (s : state) : state * res :=
+  (apply_all (firstn n (fst p)) s, RErr).
 
 (** ** transaction.Commit *)
 (* GetTransactionLogs(id)[heads/b].NewOID : newest entry of b's reflog carrying the txid *)
@@ -444,19 +455,29 @@ Definition snapshot (k : nat) (s : state) : tree :=
 
 Definition moved_count (k : nat) (s0 s : state) : nat :=
   length (filter (fun b => negb (opt_commit_eqb (heads s b) (heads s0 b))) (map N.of_nat (seq 0 k))).
-(* commit objects stored since s0: only the transaction's own commits can be new in the model *)
+(* commit objects stored since s0: only the transaction's own commits can be new in the model;
+   two branches can get the SAME object (same data staged on two new branches) *)
+Fixpoint dedup (l : list commit) : list commit :=
+  match l with
+  | [] => []
+  | c :: r => if existsb (commit_eqb c) r then dedup r else c :: dedup r
+  end.
 Definition newobj_count (s0 s : state) : nat :=
-  length (filter (fun c => stored s c && negb (stored s0 c)) (new_commits ID_ME s0)).
+  length (filter (fun c => stored s c && negb (stored s0 c)) (dedup (new_commits ID_ME s0))).
 
 Definition t_res (masked : bool) (r : res) : tree :=
   if masked then Leaf 3 else match r with ROk => Leaf 0 | RErr => Leaf 1 end.
 
-Definition observe (k : nat) (s0 s : state) (masked : bool) (r : res) : tree :=
+Definition observe (k : nat) (s0 s : state) (masked amb : bool) (r : res) : tree :=
   let mv := moved_count k s0 s in
   let nst := length (staged s0 ID_ME) in
+  let sc := length (staged s ID_ME) in
   Node [ t_res masked r;
-         Node [t_nat mv; t_nat (newobj_count s0 s); t_status (txs s ID_ME)];
-         if (Nat.eqb mv 0 || Nat.eqb mv nst)%bool then Node [snapshot k s] else Node [] ].
+         Node [t_nat mv;
+               if (amb && negb (Nat.eqb mv nst))%bool then Leaf 9 else t_nat (newobj_count s0 s);
+               t_status (txs s ID_ME); t_nat sc];
+         if ((Nat.eqb mv 0 || Nat.eqb mv nst) && (Nat.eqb sc 0 || Nat.eqb sc nst))%bool
+         then Node [snapshot k s] else Node [] ].
 
 Inductive sop :=
 | SCommitF (mode : N) (n : nat) (perm : list N) | SCommit (perm : list N)
@@ -469,11 +490,12 @@ Definition d_sop (t : tree) : sop :=
   | _ => SDiscard (d_list d_N (d_nth 1 t))
   end.
 
-Fixpoint run_script (k : nat) (s0 s : state) (masked : bool) (ops : list sop) : list tree :=
+Fixpoint run_script (k : nat) (s0 s : state) (masked : bool) (nf : nat) (ops : list sop) : list tree :=
   match ops with
   | [] => []
   | o :: ops' =>
       let mode2 := match o with SCommitF m _ _ | SDiscardF m _ _ => m =? 2 | _ => false end in
+      let nf := match o with SCommitF _ _ _ => S nf | _ => nf end in
       let p := match o with
                | SCommitF _ _ perm | SCommit perm => tx_commit (ord_by perm) ID_ME s
                | SDiscardF _ _ perm | SDiscard perm => tx_discard (ord_by perm) ID_ME s
@@ -481,13 +503,13 @@ Fixpoint run_script (k : nat) (s0 s : state) (masked : bool) (ops : list sop) : 
       if mode2 then
         (* a failing read: not predicted; the model continues from "nothing happened",
            which by C14_all_or_completable gives the same state after the next clean run *)
-        Node [Leaf 3] :: run_script k s0 s true ops'
+        Node [Leaf 3] :: run_script k s0 s true nf ops'
       else
         let '(s', r) := match o with
                         | SCommitF _ n _ | SDiscardF _ n _ => run_upto n p s
                         | _ => run_full p s
                         end in
-        observe k s0 s' masked r :: run_script k s0 s' masked ops'
+        observe k s0 s' masked (2 <=? nf)%nat r :: run_script k s0 s' masked nf ops'
   end.
 
 Definition run_C14 (c : tree) : tree :=
@@ -495,4 +517,4 @@ Definition run_C14 (c : tree) : tree :=
   let bs := d_list d_bspec (d_nth 1 c) in
   let ops := d_list d_sop (d_nth 2 c) in
   let s0 := setup flags bs in
-  Node (run_script (length bs) s0 s0 false ops).
+  Node (run_script (length bs) s0 s0 false 0 ops).
